@@ -508,8 +508,8 @@ class CircuitUnitaryCount(MetricBase):
         n_u = 0
         for label in [
             "SigmaX",
-            "SigmaX",
-            "SigmaX",
+            "SigmaY",
+            "SigmaZ",
             "Phase",
             "PhaseDagger",
             "Hadamard",
